@@ -67,6 +67,18 @@ pub struct JxlDecoder<R> {
     buf_valid: usize,
 }
 
+/// Verification hook (H8): read-only access to the decoder's image and limit bookkeeping.
+#[cfg(jxl_oxide_verif)]
+impl<R> JxlDecoder<R> {
+    pub fn verif_image(&self) -> &JxlImage {
+        &self.image
+    }
+
+    pub fn verif_current_memory_limit(&self) -> usize {
+        self.current_memory_limit
+    }
+}
+
 impl<R: Read> JxlDecoder<R> {
     /// Initializes a decoder which reads from given image stream.
     ///
